@@ -195,10 +195,31 @@ func cmdC01(args []string) {
 	}
 	base := bad["base"]
 	delete(bad, "base")
-	for _, t := range tests {
+	scaled := 0
+	for n, t := range tests {
 		c01DoTest(res, t, base, bad)
 		distinct[fmt.Sprint("T", t.Ps, t.Bad, t.Cut, t.Chunks)] = true
+		// the same behaviour at large payload sizes (every behaviour with a payload in the thorough tier, one in
+		// three otherwise; the sizes walk the ladder with the behaviour's number and the seed)
+		pay := false
+		for _, p := range t.Ps {
+			pay = pay || p > 0
+		}
+		if !pay || (!hlib.Thorough() && (n+int(hlib.Seed()))%3 != 0) {
+			continue
+		}
+		big := make([]int, len(t.Ps))
+		for i, p := range t.Ps {
+			if p > 0 {
+				big[i] = c01Ladder[(n/3+i*7+p+int(hlib.Seed()))%len(c01Ladder)]
+			}
+		}
+		u := c01Scaled(t, big)
+		c01DoTest(res, u, base, bad)
+		distinct[fmt.Sprint("T", u.Ps, u.Bad, u.Cut, u.Chunks)] = true
+		scaled++
 	}
+	res.SetExtra("behaviours_at_large_payload_sizes", scaled)
 	c01SizeBoundary(res, base)
 	res.Distinct = len(distinct)
 	res.SetExtra("layout_vectors", len(layouts))
@@ -279,6 +300,52 @@ func c01DoLayout(res *hlib.Result, l c01Layout) {
 
 // c01DoTest runs one behaviour; for scenarios ending in a defective header
 // every defect kind is tried with the same script.
+// c01Scaled instantiates a behaviour of the specification at LARGE payload sizes: the abstract payload lengths
+// t.Ps (a few bytes in the bounded model - Framing.tla quantifies over 0..limit) are replaced by the lengths
+// big[i]; every position of the behaviour (chunk boundaries, the cut, the expected ends) is carried over by the
+// monotone map "header bytes one to one, payload byte o of p to o*L/p".  The expected outcome is the
+// specification's: it does not depend on the sizes, only on where the cut and the boundaries fall.
+func c01Scaled(t c01Test, big []int) c01Test {
+	absStart := make([]int, len(t.Ps)+1)
+	conStart := make([]int, len(t.Ps)+1)
+	for i, p := range t.Ps {
+		absStart[i+1] = absStart[i] + 28 + p
+		conStart[i+1] = conStart[i] + 28 + big[i]
+	}
+	at := func(x int) int {
+		for i, p := range t.Ps {
+			if x < absStart[i+1] {
+				off := x - absStart[i]
+				if off <= 28 {
+					return conStart[i] + off
+				}
+				return conStart[i] + 28 + int(int64(off-28)*int64(big[i])/int64(p))
+			}
+		}
+		return conStart[len(t.Ps)] + (x - absStart[len(t.Ps)])
+	}
+	u := c01Test{Ps: append([]int{}, big...), Bad: t.Bad, Cut: at(t.Cut)}
+	pos := 0
+	for _, c := range t.Chunks {
+		if c[0] == 0 {
+			u.Chunks = append(u.Chunks, []int{0, c[1]})
+			continue
+		}
+		k := at(pos+c[0]) - at(pos)
+		pos += c[0]
+		u.Chunks = append(u.Chunks, []int{k, c[1]})
+	}
+	u.Exp = c01Exp{Decoded: t.Exp.Decoded, Final: t.Exp.Final, Maxpos: at(t.Exp.Maxpos)}
+	for _, e := range t.Exp.Ends {
+		u.Exp.Ends = append(u.Exp.Ends, at(e))
+	}
+	return u
+}
+
+// c01Ladder: payload sizes around the places where an implementation may change its strategy (a page, 64 KiB
+// and its neighbours, a few hundred kilobytes), none of them a multiple of the others.
+var c01Ladder = []int{4095, 4097, 65535, 65536, 65537, 100000, 131073, 196609, 70001, 300007}
+
 func c01DoTest(res *hlib.Result, t c01Test, base []byte, bad map[string][]byte) {
 	kinds := []string{"none"}
 	if t.Bad != "none" {
